@@ -92,7 +92,9 @@ class RefRun:
         assert r == 'ok'
         self.sub = sub
     def step(self, ev):
-        """returns the expected yield (0/1), or None when the case is unspecified from here on"""
+        """returns the expected yield (0/1; 'any' for a next on an object that was closed before it was started: a
+        real generator is finished then, the engine's YPSuccess object of two equal constants ignores close() and
+        still yields once - the property says nothing about it), or None when the case is unspecified from here on"""
         op, i = ev[0], ev[1]
         st = self.state.get(i)
         y = 0
@@ -115,11 +117,13 @@ class RefRun:
                     self.state[i] = ('done',)
             elif st and st[0] == 'active':
                 self._pop(i)
+            elif st and st[0] == 'closed':
+                y = 'any'
         else:
             if st and st[0] == 'active':
                 self._pop(i)
-            elif st:
-                self.state[i] = ('done',)
+            elif st and st[0] == 'fresh':
+                self.state[i] = ('closed',)
         return y
     def _pop(self, i):
         if self.stack[-1][0] != i:
@@ -216,7 +220,7 @@ def _gen_case(rng):
                 fresh.remove(i)
                 emit([rng.choice(['close', 'drop']), i])
             else:
-                done = [i for i, st in ref.state.items() if st[0] == 'done']
+                done = [i for i, st in ref.state.items() if st[0] in ('done', 'closed')]
                 if done:
                     emit(['next', rng.choice(done)])
     if alive:
@@ -417,7 +421,7 @@ def oracle(case, io):
             yields[e[1]] = yields.get(e[1], 0) + 1
             if yields[e[1]] > 1:
                 return '%s: the generator yielded a second time' % what
-        if g['y'] != want:
+        if want != 'any' and g['y'] != want:
             return ('%s yielded although the terms are not unifiable under the active bindings' if g['y'] else
                     '%s did not yield although the terms are unifiable under the active bindings') % what
         if g['snap'] == 'cycle':
